@@ -144,10 +144,12 @@ impl Gen<'_> {
             Type::Float => self.num(),
             Type::Vec2 => { let (a, b) = (self.num(), self.num()); if self.r.chance(0.6) { S::Arr(vec![a, b]) } else { S::Call("vec2".into(), vec![a, b]) } }
             Type::Vec3 => { let (a, b, c) = (self.num(), self.num(), self.num());
-                match self.r.below(4) { 0 => S::Arr(vec![a, b]), 1 => S::Call("vec3".into(), vec![a, b, c]), _ => S::Arr(vec![a, b, c]) } }
+                // (a vec2 OBJECT is promoted like a two-element array)
+                match self.r.below(5) { 0 => S::Arr(vec![a, b]), 1 => S::Call("vec3".into(), vec![a, b, c]), 4 => S::Call("vec2".into(), vec![a, b]), _ => S::Arr(vec![a, b, c]) } }
             Type::Vec4 => { let v: Vec<S> = (0..4).map(|_| self.num()).collect(); S::Arr(v) }
             Type::Tree => self.tree(),
-            Type::VecTree => { let n = self.r.range(0, 3); S::Arr((0..n).map(|_| self.tree()).collect()) }
+            // (an element that is itself an array is ONE tree: the union of its elements)
+            Type::VecTree => { let n = self.r.range(0, 3); S::Arr((0..n).map(|_| if self.r.chance(0.15) { let k = self.r.range(1, 3); S::Arr((0..k).map(|_| self.tree()).collect()) } else { self.tree() }).collect()) }
             Type::Axis => match self.r.below(4) { 0 => S::Str(self.r.pick(&["x", "y", "z", "Z"]).to_string()), 1 => S::Var(*self.r.pick(&["x", "y", "z"])),
                 _ => { let k = self.r.below(3); let mut a = [0i64; 3]; a[k] = *self.r.pick(&[1i64, 2, -1]); S::Arr(a.iter().map(|v| S::Int(*v)).collect()) } },
             Type::Plane => match self.r.below(3) { 0 => S::Str(self.r.pick(&["xy", "yz", "zx"]).to_string()), 1 => S::Str(self.r.pick(&["x", "y", "z"]).to_string()),
@@ -286,6 +288,29 @@ pub fn run(seed: u64, count: usize, outdir: &str) -> std::io::Result<i32> {
             }
         }
         *hist.entry("call-form-pairs-compared".into()).or_default() += nforms;
+        // ---- a script variable shadows everything of the same name: `let N = v; body` builds what `body` with (v) written in
+        // place of N builds, for ordinary names and for the names of the built-in constants alike, also as a function parameter
+        let names = ["r", "w0", "PI", "E", "TAU", "PHI", "SQRT_2", "LN_2", "FRAC_PI_2", "GOLDEN_RATIO", "FRAC_1_SQRT_2"];
+        let mut nlets = 0usize;
+        for round in 0..60 {
+            let name = names[round % names.len()];
+            let mut g = Gen { r: &mut r, sigs: &sigs, rots: vec![], depth: 3 };
+            let v = g.num(); let (a, b) = (g.tree(), g.tree());
+            let vs = src(&v);
+            let with_let = match round % 3 {
+                0 => format!("let {name} = {vs}; ({}) * {name} + ({}) - {name}", src(&a), src(&b)),
+                1 => format!("fn grow(shape, {name}) {{ shape - {name} }} grow({}, {vs}) + ({})", src(&a), src(&b)),
+                _ => format!("let {name} = {vs}; max(({}), {name}).move([{name}, 1])", src(&a)),
+            };
+            let direct = match round % 3 {
+                0 => format!("({}) * ({vs}) + ({}) - ({vs})", src(&a), src(&b)),
+                1 => format!("(({}) - ({vs})) + ({})", src(&a), src(&b)),
+                _ => format!("max(({}), ({vs})).move([({vs}), 1])", src(&a)),
+            };
+            let (x, y) = (ev(&with_let), ev(&direct)); nlets += 1;
+            if x != y { fails += 1; writeln!(oracle, "FAIL case=0 kind=script-variable-not-shadowing name={name} `{}` gives {} but `{}` gives {}", &with_let[..with_let.len().min(120)], &x[..x.len().min(60)], &direct[..direct.len().min(120)], &y[..y.len().min(60)]).unwrap(); }
+        }
+        *hist.entry("let-substitution-pairs-compared".into()).or_default() += nlets;
     }
     for ci in 0..count {
         let mut r = rng.fork();
